@@ -78,11 +78,12 @@ PROPS = {
         "assumptions": COMMON_ASSUME,
     },
     "C09": {
-        "level_text": "Lean theorems C09_ramp (the cap is min(maxParallelPodCreation, (1+floor(t/interval))*increase) for every positive interval and t >= 0, percentages rounding up), C09_ramp_ref, C09_create_bound, C09_sync_create_bound, C09_delete_bound, C09_start_time about the model; the real calculateMaxCreation is run at exact instants (slot boundary -1ns/0/+1ns, negative elapsed time, zero/negative interval) and ManageDeployment's create list is bounded against the reference formula on every case. The sync-spacing clause is checked on the real Reconcile by the ers_reconcile stream when registered.",
+        "level_text": "Lean theorems C09_ramp (the cap is min(maxParallelPodCreation, (1+floor(t/interval))*increase) for every positive interval and t >= 0, percentages rounding up), C09_ramp_ref, C09_create_bound, C09_sync_create_bound, C09_delete_bound, C09_start_time about the model; the real calculateMaxCreation is run at exact instants (slot boundary -1ns/0/+1ns, negative elapsed time, zero/negative interval) and ManageDeployment's create list is bounded against the reference formula on every case. C09_gate / C09_stamp / C09_spacing (EdsProps/C09b): a sync gated by LastFullSync issues no write at all, a full sync stamps LastFullSync with its own instant, hence two write-issuing syncs of one replica set are at least reconcileFrequency apart; the real Reconcile is compared with the model on the ers_reconcile stream (gate and stamp clauses evaluated on its writes).",
         "level_note": TB + "Modelled by hand: calculateMaxCreation, getRollingUpdateStartTime, the create-list cap; limits.go is translated. Spacing of syncs (LastFullSync gate) is a property of Reconcile, covered at scenario level.",
-        "streams": [("max_creation", 3000, 60000), ("limits", 2000, 40000), ("manage_deployment", 1500, 30000)],
+        "streams": [("max_creation", 3000, 60000), ("limits", 2000, 40000), ("manage_deployment", 1500, 30000), ("ers_reconcile", 1500, 30000)],
+        "extra_theorems": [("EdsProps.C09b", "C09_")],
         "trusted_base": ["Go's truncating Duration division = Int.tdiv; calculateMaxCreation model tied by the max_creation stream"],
-        "partial": ["C09_spacing (two write-issuing syncs are reconcileFrequency apart) is stated on the Reconcile model and not yet proved"],
+        "partial": ["persisted timestamps have one-second resolution (metav1.Time): the spacing theorem is about the model's untruncated instants, the statement allows for that second"],
         "assumptions": COMMON_ASSUME,
     },
     "C06": {
@@ -119,8 +120,9 @@ PROPS = {
     },
     "C12": {
         "level_text": "Lean theorems C12_lists_scoped / C12_list_sites_known (obligations on the client.List call sites extracted from the Go source on this run: every list of replica sets, pods or settings carries a namespace option), C12_deletes_owned, C12_create_owned (every replica set the EDS reconcile deletes or creates is in its namespace, carries its name label, is owned by it) about the model of the EDS Reconcile; the real Reconcile runs against a fake API server populated with replica sets and pods of a same-named EDS in another namespace and of another EDS in the same namespace, every write is intercepted and classified own/foreign, and the writes are compared with the model's.",
-        "level_note": TB + "Modelled by hand: the EDS Reconcile as store -> writes (ReconcileEds.lean). The list-site facts come from tools/extract (syntactic: option composite literals and InNamespace calls reaching the List call). Pod-level writes of the replica-set controller are covered by the ers_reconcile stream when registered.",
+        "level_note": TB + "Modelled by hand: the EDS Reconcile as store -> writes (ReconcileEds.lean). The list-site facts come from tools/extract (syntactic: option composite literals and InNamespace calls reaching the List call). Pod-level writes of the replica-set controller: C12_ers_writes_owned / C12_ers_creates_owned / C12_ers_counts_own (EdsProps/C12b) on the model of its Reconcile, tied by the ers_reconcile stream with foreign-namespace, other-EDS, old-DaemonSet and overlapping-label stray pods.",
         "streams": [("eds_reconcile", 2500, 40000), ("ers_reconcile", 2500, 40000)],
+        "extra_theorems": [("EdsProps.C12b", "C12_")],
         "trusted_base": ["tools/extract list-site facts; hand-written L2 model of the EDS Reconcile tied by the eds_reconcile stream (fake client = consistent reads)"],
         "assumptions": COMMON_ASSUME,
     },
@@ -165,6 +167,30 @@ PROPS = {
         "extra_theorems": [("EdsProofs.FactsBridge", "facts_states")],
         "trusted_base": ["hand-written L2 models of both Reconcile functions tied by the eds_reconcile / ers_reconcile streams"],
         "partial": ["C14_quiescent: scenario-level evidence only"],
+        "assumptions": COMMON_ASSUME,
+    },
+    "C02": {
+        "level_text": "Partial. Proved for unbounded sizes: C02_coop_limits / C02_progress_create / C02_progress_delete (under the cooperative assumption a sync creates at least one pod while a node lacks one and may replace at least one outdated pod once every node has one), the abstract cooperative round with the variant 2*outdated + empty: C02_round_measure (strictly decreasing for maxUnavailable >= 1 and a creation cap >= 1), C02_rounds_bound (fixpoint after at most 2*outdated + empty <= 2N rounds), C02_abs_fixpoint, and the fixpoint of the real plan: C02_fixpoint (every targeted node up to date => a sync creates and deletes nothing). NOT a theorem: the composition across the two controllers and through canary histories (C02_converges). It is validated by the scenario stream: the four real reconcilers plus a kubelet model run random histories (template changes incl. several in a row, pause/freeze/canary commands, node churn and tainting, pod restarts/failures, neighbours in other namespaces) with every reconcile step compared with the L2 models, then cooperative rounds to quiescence; Spec.C02.fixpoint (one Ready live-template pod per eligible node, no other daemon pod, live template active) and the round bound are evaluated on the final store.",
+        "level_note": TB + "The cooperative round assumes real kubelet timing and work-queue fairness (every reconciler runs, created pods get scheduled and Ready, terminations finish, the clock advances by more than reconcileFrequency and the slow-start interval). Configurations where the EDS reconcile keeps reporting an error (a canary asking for more nodes than are eligible: C15) hold the rollout by specification and are counted, not judged.",
+        "streams": [("scenario", 40, 1500)],
+        "partial": ["C02_converges (composition of the per-sync lemmas across EDS/ERS reconciles, kubelet and canary phases) is not proved; scenario-level evidence only"],
+        "trusted_base": ["simulated API server + kubelet (harness/streams/sim.go): creation timestamps/UIDs on create, graceful deletion via a kubelet finalizer, clock by aging every stored timestamp, fake clock for the failed-pod back-off"],
+        "assumptions": COMMON_ASSUME + ["cooperative scheduling of reconcilers and kubelet (fairness)"],
+    },
+    "C04": {
+        "level_text": "Lean theorems on the model of the replica-set Reconcile (EdsProps/C04): C04_roles_disjoint / C04_role_cases (at most one active and one canary role per EDS status), C04_canary_creates_in_list (the canary role creates and update-deletes only on status.canary.nodes) with C04_created_pinned / C04_created_node_listed, C04_active_avoids_list (the active role neither creates nor deletes nor cleans up on canary nodes), C04_active_serves_rest (every other listed fit node stays a key of the active role's map), C04_unknown_inert (a leftover replica set issues no pod write at all), C04_label_scope / C04_label_on / C04_label_off (canary label added by the canary role on its own pods on canary nodes, removed by the active role within the 5-minute window), for every store; list growth bounded by the resolved replicas is evaluated on every EDS status write (C04.list-growth) and follows the selectNodes model (C15). Tied by the ers_reconcile stream and by the scenario stream (histories with a second template change during a canary, node churn, pause/unpause/fail, every reconcile order).",
+        "level_note": TB + "Modelled by hand: the replica-set Reconcile as store -> write batches (ReconcileErs.lean), roles from the EDS status. History clauses (the list only grows up to the request; the label is gone once the replica set is active) are per-step theorems plus scenario evidence, not an induction over histories.",
+        "streams": [("ers_reconcile", 2500, 40000), ("manage_canary", 1000, 20000), ("manage_unknown", 500, 10000), ("scenario", 25, 600)],
+        "partial": ["C04_list_growth as a history invariant is checked per EDS status write (stream clause), not proved by induction"],
+        "trusted_base": ["hand-written L2 model of the replica-set Reconcile tied by the ers_reconcile stream (every create incl. the pod built, delete, label patch and the status compared)"],
+        "assumptions": COMMON_ASSUME + ["replica-set and pod names unique within a namespace (API server)"],
+    },
+    "C11": {
+        "level_text": "Lean theorems: downward closure of the safety predicates under dropped writes (C11_all_sublist, C11_nodup_sublist, C11_budget_sublist) and their use C11_safe_under_faults_active (whatever subset of a planned sync's creations and deletions is applied, the availability budget, the cap, creation-only-on-empty-eligible-nodes and one-creation-per-node hold), C11_stateless_filter (the per-node map contract holds for EVERY state of the in-memory back-off, so a fresh instance after a crash is one instance of it), C11_two_step (= C07_recoverable). Recovery to the same final state is checked, not proved: the scenario_faults stream replays the corpus (first deployment, rolling update, canary start and promotion, canary failure and rollback, node removal, settings change) with a fault at every index k of the failure-free run's API writes and every kind (call rejected, applied but answer lost, process stop before / after the write with fresh reconciler instances), pairs in the thorough tier; safety clauses are evaluated on every step and the final pods/status are compared with the failure-free run.",
+        "level_note": TB + "Safety under faults = proof (per-sync theorems quantified over every store and back-off state + downward closure). Recovery / same fixpoint inherits C02's partial label and is scenario-level evidence on the real reconcilers against the simulated API server.",
+        "streams": [("scenario_faults", 72, 1400), ("scenario", 15, 300)],
+        "partial": ["convergence after the fault to the failure-free final state is stream-level evidence (inherits C02_converges)"],
+        "trusted_base": ["fault injection in the simulated API server: reject / applied-but-error / process stop (no later write of that reconcile is applied, reconcilers rebuilt)"],
         "assumptions": COMMON_ASSUME,
     },
 }
